@@ -288,8 +288,9 @@ def monitor_c06(ctx, scn, tv):
                 continue
             # what ninja can know to be wanted now: dyndep files that are (re)generated in this build and have
             # not finished yet have not been loaded
-            unloaded = frozenset(o2 for s2 in g.sc["stmts"] if s2["kind"] == "scan" for o2 in s2["outs"]
-                                 if o2 in start_idx and (finish_idx.get(o2) is None or finish_idx[o2][0] > i or finish_idx[o2][1] != 0))
+            unloaded = frozenset(o2 for s2 in g.sc["stmts"] if s2["kind"] == "scan" and s2["outs"][0] in start_idx and
+                                 (finish_idx.get(s2["outs"][0]) is None or finish_idx[s2["outs"][0]][0] > i or finish_idx[s2["outs"][0]][1] != 0)
+                                 for o2 in s2["outs"] + s2["iouts"])
             if unloaded not in known_wanted:
                 known_wanted[unloaded] = g.closure(tv.targets, unloaded=unloaded) if unloaded else None
             kw = known_wanted[unloaded]
@@ -456,7 +457,7 @@ def monitor_c05(ctx, scn, tv, recs_before_logs):
         # a dyndep file whose producer failed (or could not run) is never loaded: statements ninja could only
         # have learnt about from it are not demanded
         unloaded = {o for sid in (failed | blocked) if sid in g.by_id and g.by_id[sid]["kind"] == "scan"
-                    for o in g.by_id[sid]["outs"]}
+                    for o in g.by_id[sid]["outs"] + g.by_id[sid]["iouts"]}
         if unloaded:
             must &= g.closure(tv.targets, unloaded=unloaded)
             ctx.count("c05_runs_with_unloaded_dyndep")
@@ -786,7 +787,7 @@ def judge_missing_source(ctx, scn, step, tr):
     ctx.count("c05_missing_source_cases")
     ctx.count("c05_missing_source_" + how)
     ctx.nontrivial((scn["id"], "missing-source"))
-    if res.get("exit") == 0 and step.get("_missing_victim") not in starts and ("order-only" in how or how.endswith("/oins")):
+    if res.get("exit") == 0 and step.get("_missing_victim") not in starts and ("order-only" in how or "/oins" in how):
         # an order-only input does not make its statement out of date: when that statement has nothing to run there is nothing the
         # file is needed for (the property speaks of commands that would run); what else is built meanwhile is not the point
         ctx.count("c05_missing_order_only_source_nothing_to_run")
